@@ -132,6 +132,15 @@ func runHarness(p *Program, hs HarnessSpec, timeoutMs int) *harnessResult {
 		fmt.Sscan(v, &budget)
 	}
 	e.Deadline = time.Now().Add(time.Duration(budget) * time.Second)
+	// Once a failure is recorded the check will exit 1 if it reproduces: keep exploring for other
+	// assertion ids only for a grace period. Not when open known findings exist (an unlisted
+	// violation must still be found behind a listed one).
+	e.FailGrace = 120 * time.Second
+	for _, k := range loadKnown() {
+		if k.Status == "known" {
+			e.FailGrace = 0
+		}
+	}
 	func() {
 		defer func() {
 			if r := recover(); r != nil {
@@ -396,7 +405,7 @@ func report(prop, tier string, seed int, ps PropSpec, results []*harnessResult, 
 		}
 		harnessRows = append(harnessRows, map[string]interface{}{"harness": r.Spec.Fn, "params": r.Spec.Params, "cfg": r.Spec.Cfg, "paths": e.Paths, "path_ends": e.Ends,
 			"ssa_instructions": e.Steps, "obligations": e.Obligations, "discharged": e.Discharged, "queries": e.sol.Queries,
-			"solver_time_s": round2(e.sol.Time.Seconds()), "wall_s": round2(r.Wall.Seconds()), "max_decisions_on_a_path": e.MaxDecisions, "assert_ids_reached": ids})
+			"solver_time_s": round2(e.sol.Time.Seconds()), "second_solver_verdicts": e.sol.Fallbacks, "wall_s": round2(r.Wall.Seconds()), "max_decisions_on_a_path": e.MaxDecisions, "assert_ids_reached": ids})
 	}
 	for gk, n := range groupObl {
 		if n == 0 {
